@@ -9,6 +9,7 @@ import CSD.Lemmas.HashRP
 import CSD.Lemmas.HashRPF
 import CSD.Lemmas.FM11
 import CSD.Lemmas.RPFC6
+import CSD.Lemmas.RPDAC2
 
 namespace CSD.Props.C02
 open CSD CSD.PFC
@@ -186,5 +187,20 @@ theorem rpfc_models_match_source_text :
     Generated.body_RPFC_searchPrefix = SourceText.body_RPFC_searchPrefix ∧
     Generated.body_RPFC_searchDistinctPrefix = SourceText.body_RPFC_searchDistinctPrefix :=
   ⟨rfl, rfl, rfl, rfl, rfl, rfl, rfl, rfl, rfl, rfl⟩
+
+/-! ### RPDAC -/
+
+/-- A NUL-free query that is not a member is answered 0 by RPDAC (binary search with
+`extractStringAndCompareDAC`), over every well-founded grammar and sequences representing the dictionary, with
+every comparison inside the pattern's buffer. -/
+theorem rpdac_locate_absent (d : RPDAC.D) (S : List Str) (r : RPDAC.Represents d S) (hv : validDict S = true)
+    (q : Str) (hq : nulFree q) (habs : q ∉ S) : RPDAC.locate d (RPDAC.bytesNat q) = some 0 := by
+  obtain ⟨_, hn, hs, _⟩ := validDict_facts hv
+  rw [RPDAC.locate_represents d S r hn hs q hq, Spec.locate_not_mem habs]
+
+/-- `extract` of an ID outside `[1, n]` is NULL for RPDAC; the DAC is not accessed. -/
+theorem rpdac_extract_bad_id (d : RPDAC.D) (S : List Str) (r : RPDAC.Represents d S) (i : Nat)
+    (h : i = 0 ∨ i > S.length) : RPDAC.extract d i = none := by
+  rw [RPDAC.extract_represents d S r i, dif_neg (by omega)]
 
 end CSD.Props.C02
